@@ -4,6 +4,7 @@ import (
 	"fmt"
 	"github.com/cuteLittleDevil/go-jt808/protocol/model"
 	"os"
+	"path/filepath"
 	"strings"
 )
 
@@ -81,7 +82,13 @@ func (f *fileEvent) OnEvent(progress *PackageProgress) {
 			len(progress.Record), progress.ExtensionFields.ActiveSafetyType.String())
 		_ = os.MkdirAll(phone, os.ModePerm)
 		for name, pack := range progress.Record {
-			savePath := fmt.Sprintf("./%s/%s", phone, name)
+			// 文件名是终端上报的 只保留最后一段 不能写到手机号目录之外
+			safeName := filepath.Base(filepath.Clean("/" + name))
+			if safeName == "/" || safeName == "." || safeName == ".." {
+				str += fmt.Sprintf("保存文件[%s] 文件名不合法 不保存\n", name)
+				continue
+			}
+			savePath := fmt.Sprintf("./%s/%s", phone, safeName)
 			err := os.WriteFile(savePath, pack.StreamBody, os.ModePerm)
 			str += fmt.Sprintf("保存文件[%s] 文件大小[%d byte] 保存情况[%v]\n",
 				savePath, len(pack.StreamBody), err)
